@@ -26,7 +26,7 @@ import ECAgent.Environments as Envs
 import ECAgent.Batching as Batching
 from ECAgent.Collectors import Collector, AgentCollector
 
-KINDS = ['plain', 'grid', 'space']
+KINDS = ['plain', 'grid', 'space', 'swap']       # swap: the model alternates between two worlds (day / night)
 CROWD = 600          # more agents than any small-scope threshold a fast path might use
 
 META = {
@@ -109,7 +109,7 @@ class Gift(Core.System):
         env = m.environment
         if m.kind in ('plain', 'crowd'):
             env.add_agent(a)
-        elif m.kind == 'grid':
+        elif m.kind in ('grid', 'swap'):
             env.add_agent(a, m.random.randrange(env.width), m.random.randrange(env.height))
         else:
             env.add_agent(a, m.random.uniform(0, env.width), m.random.uniform(0, env.height))
@@ -132,7 +132,7 @@ class Walk(Core.System):
         if m.kind in ('plain', 'crowd'):
             return
         for a in env.shuffle():
-            if m.kind == 'grid':
+            if m.kind in ('grid', 'swap'):
                 dx, dy = m.random.choice([(1, 0), (-1, 0), (0, 1), (0, -1), (2, 2)])
                 env.move(a, dx, dy)
                 cells = env.get_moore_neighbours(a[Envs.PositionComponent], 1)
@@ -141,6 +141,29 @@ class Walk(Core.System):
                 env.move(a, m.random.uniform(-1.5, 1.5), m.random.uniform(-1.5, 1.5))
                 near = env.get_agents_at(a[Envs.PositionComponent].x, a[Envs.PositionComponent].y, leeway=2.0)
                 tr.append(('near', a.id, [b.id for b in near]))
+
+
+class Swap(Core.System):
+    """Every timestep the whole population moves to the model's other world, which is then installed (day, night, day
+    again, ...): a world that was replaced comes back later."""
+
+    def execute(self):
+        m = self.model
+        tr = m.systems['trace'].records
+        cur = m.environment
+        nxt = m.worlds[(m.worlds.index(cur) + 1) % len(m.worlds)]
+        for a in cur.shuffle():
+            cur.remove_agent(a.id)
+            nxt.add_agent(a, m.random.randrange(nxt.width), m.random.randrange(nxt.height))
+        if m.systems.timestep % 2:
+            m.set_environment(nxt)
+        else:
+            m.environment = nxt
+        tr.append(('swap', m.systems.timestep, [a.id for a in nxt]))
+
+
+def _even(seed):
+    return seed % 2 == 0 if isinstance(seed, int) else len(str(seed)) % 2 == 0
 
 
 class SModel(Core.Model):
@@ -152,7 +175,11 @@ class SModel(Core.Model):
         self.born = 0
         self.horizon = horizon
         if kind == 'grid':
-            self.environment = Envs.GridWorld(self, 5, 4, wrap_env=(seed % 2 == 0))
+            self.environment = Envs.GridWorld(self, 5, 4, wrap_env=_even(seed))
+        elif kind == 'swap':
+            self.worlds = [Envs.GridWorld(self, 5, 4, wrap_env=_even(seed)), Envs.GridWorld(self, 3, 3)]
+            self.environment = self.worlds[0]
+            self.systems.add_system(Swap('swap', self, priority=4))
         elif kind == 'space':
             self.environment = Envs.SpaceWorld(self, 10.0, 8.0, wrap_env=True)
         self.systems.add_system(Trace('trace', self))
@@ -306,7 +333,7 @@ def interleaving_cases(tier, seed):
     s1, s2, s3 = seed * 1000 + 1, seed * 1000 + 2, seed * 1000 + 3
     steps = 2 if tier == 'quick' else 3
     combos = [[['plain', s1], ['grid', s2]], [['grid', s1], ['space', s2]], [['plain', s1], ['plain', s1]],
-              [['space', s2], ['plain', s2]]]
+              [['space', s2], ['plain', s2]], [['swap', s1], ['grid', f'run-{seed}']]]
     if tier == 'thorough':
         combos += [[['grid', s3], ['grid', s3]], [['space', s1], ['space', s1]]]
     for models in combos:
@@ -415,7 +442,7 @@ def matrix_fn(ctx, case):
 
 
 def matrix_cases(tier, seed):
-    seeds = [seed * 1000 + 1, seed * 1000 + 2]
+    seeds = [seed * 1000 + 1, seed * 1000 + 2, f'run-{seed}', 2.5 + seed]      # int, str and float seeds
     steps = 4
     hs_all = [0, 1, 4242, 'random']
     hows = ['direct', 'fork', 'spawn', 'batch1', 'batch2']
@@ -433,6 +460,14 @@ def run(ctx):
         raise hbfs.HarnessError('scripted models are not seed-sensitive')
     for kind in KINDS + ['crowd']:
         case = {'leg': 'repeat', 'kind': kind, 'seed': ctx.seed * 1000 + 1, 'steps': 3 if kind != 'crowd' else 1}
+        ctx.traces += 2
+        try:
+            hbfs._guard(repeat_case, case)
+        except Violation as v:
+            ctx.report(case, v)
+    # seeds that are not ints (random.Random takes str and float seeds too)
+    for kind, sd in (('plain', f'run-{ctx.seed}'), ('grid', 2.5 + ctx.seed), ('swap', f'experiment {ctx.seed}')):
+        case = {'leg': 'repeat', 'kind': kind, 'seed': sd, 'steps': 3}
         ctx.traces += 2
         try:
             hbfs._guard(repeat_case, case)
@@ -457,7 +492,7 @@ REPEAT_CHILD = r'''
 import json, sys
 sys.path.insert(0, sys.argv[1]); sys.path.insert(0, sys.argv[2])
 import mc.props.c07 as c07
-print(json.dumps(c07.repeat_in_process(sys.argv[3], int(sys.argv[4]), int(sys.argv[5]))))
+print(json.dumps(c07.repeat_in_process(sys.argv[3], json.loads(sys.argv[4]), int(sys.argv[5]))))
 '''
 
 
@@ -485,7 +520,7 @@ def repeat_case(case):
     tree = os.path.dirname(os.path.dirname(os.path.abspath(Core.__file__)))
     verif = os.path.dirname(os.path.dirname(os.path.dirname(os.path.abspath(__file__))))
     env = dict(os.environ, PYTHONHASHSEED='0')
-    r = subprocess.run([sys.executable, '-c', REPEAT_CHILD, tree, verif, case['kind'], str(case['seed']),
+    r = subprocess.run([sys.executable, '-c', REPEAT_CHILD, tree, verif, case['kind'], json.dumps(case['seed']),
                         str(case['steps'])], capture_output=True, text=True, env=env, timeout=600)
     if r.returncode != 0:
         raise Violation('child process of the repeat leg failed', observed=(r.stderr.strip().splitlines() or [''])[-1])
